@@ -6,10 +6,13 @@ from n2gen import *
 
 KINDS = ["none", "ex", "oo", "val"]
 
-def small_graph(n, ek, phonies, pools, twos, depth, effs):
+def small_graph(n, ek, phonies, pools, twos, depth, effs, nosrc=()):
     steps = []
     for j in range(1, n + 1):
-        ins = ["s%d" % j]; imp = []; oo = []; val = []
+        # (steps in nosrc have no source of their own when another step feeds them: their only
+        # ordering input is a generated file)
+        own = not (j in nosrc and any(ek.get((i, j)) == "ex" for i in range(1, n + 1)))
+        ins = ["s%d" % j] if own else []; imp = []; oo = []; val = []
         for i in range(1, n + 1):
             k = ek.get((i, j), "none")
             if k == "ex":
@@ -76,7 +79,8 @@ def exhaustive_small(seed, tier):
                     fam.append((ek, oc, j, k))
     take = fam if tier == "thorough" else rnd.sample(fam, 500)
     for idx, (ek, oc, j, k) in enumerate(take):
-        g = small_graph(n, ek, set(), {}, set(), None, {})
+        nosrc = {i for i in range(1, n + 1) if rnd.random() < 0.5}
+        g = small_graph(n, ek, set(), {}, set(), None, {}, nosrc=nosrc)
         outcomes = {i + 1: oc[i] for i in range(n) if oc[i] != "ok"}
         scns.append(sched_scenario("fail-%d" % idx, g, n, {1, 2, 3}, outcomes, j, k, [],
                                    pre_build=False))
@@ -263,6 +267,34 @@ def hold_family(seed, tier):
         scns.append(scenario("hold-%d" % idx, ops, fam="hold"))
     return scns
 
+def valfail_family(seed, tier):
+    """Validation edges and failures together (C05, C01): a step whose only ordering input is a
+    generated file, with a validation target hanging off it, while the producer of the input
+    fails / the validation target fails / both succeed, under every completion order."""
+    scns = []
+    idx = 0
+    for with_e in (False, True):
+        for extra_src in (False, True):
+            for oa in ("ok", "fail"):
+                for ov in ("ok", "fail"):
+                    for vdep in (False, True):
+                        steps = [step(["a"], ["sa"], cmd="cmd-a"),
+                                 step(["v"], ["sv"] + (["a"] if vdep else []), cmd="cmd-v"),
+                                 step(["d"], ["a"] + (["sd"] if extra_src else []), val=["v"], cmd="cmd-d")]
+                        if with_e:
+                            steps.append(step(["e"], ["d"], cmd="cmd-e"))
+                        g = graph(steps)
+                        ops = [manifest_op(g)] + [{"op": "write", "path": f} for f in sources(g)]
+                        outcomes = {}
+                        if oa == "fail":
+                            outcomes[1] = "fail"
+                        if ov == "fail":
+                            outcomes[2] = "fail"
+                        ops.append(invoke(["e"] if with_e else ["d"], j=2, k=0, outcomes=outcomes, policy={"kind": "all"}))
+                        ops.append(invoke([], j=2, k=0))
+                        scns.append(scenario("valfail-%d" % idx, ops, fam="sched", max_orders=24)); idx += 1
+    return scns
+
 def args_family(seed, tier):
     """Target strings of any shape on the command line (C12, C18): none of them names a file
     of the manifest, so each must be rejected as an unknown path."""
@@ -345,7 +377,8 @@ def poolmix_family(seed, tier):
             steps.append(step(["m%d" % mi], ins, oo=oo, cmd="mem%d" % mi, pool=pool,
                               eff={"kind": "write", "reads": []}))
         g = graph(steps, pools=[("p", depth)])
-        ops = [manifest_op(g)] + [{"op": "write", "path": f} for f in sources(g)]
+        # (every other scenario writes the steps with one shared rule and per-build `pool = $p`)
+        ops = [manifest_op(g, style={"sharedrule": idx % 2 == 1})] + [{"op": "write", "path": f} for f in sources(g)]
         ops.append(invoke([], j=4))
         for f in dirty:
             ops.append({"op": "write", "path": f})
@@ -358,4 +391,5 @@ def poolmix_family(seed, tier):
 
 def generate(seed, tier):
     return exhaustive_small(seed, tier) + random_sched(seed, tier) + hold_family(seed, tier) \
-        + args_family(seed, tier) + outdir_family(seed, tier) + poolmix_family(seed, tier)
+        + args_family(seed, tier) + outdir_family(seed, tier) + poolmix_family(seed, tier) \
+        + valfail_family(seed, tier)
